@@ -207,6 +207,36 @@ def run_impl(case):
     return out
 
 
+def run_threaded(cases, workers=4):
+    """Run the cases concurrently, one thread per case (each with its own objects and arrays; the callers share nothing), with a very
+    short interpreter switch interval so that the threads interleave inside the solves.  Returns the list of run_impl results."""
+    import sys
+    from concurrent.futures import ThreadPoolExecutor
+    old_si = sys.getswitchinterval()
+    sys.setswitchinterval(1e-6)
+    try:
+        with ThreadPoolExecutor(max_workers=workers) as ex:
+            return list(ex.map(run_impl, cases))
+    finally:
+        sys.setswitchinterval(old_si)
+
+
+def threaded_equals_serial(cases, serial, report, rounds=2, workers=4):
+    """Simulations that run at the same time in different threads (same node count, different grids / fluids / pressures) must give
+    exactly what they give one after the other.  report(case, observed) is called for a difference.  Returns #evaluations."""
+    n = 0
+    for _ in range(rounds):
+        conc = run_threaded(cases, workers)
+        for c, a, b in zip(cases, serial, conc):
+            n += 1
+            if ("field" in a) != ("field" in b):
+                report(c, dict(serial_error=a.get("error"), concurrent_error=b.get("error")))
+            elif "field" in a and not (np.array_equal(a["field"], b["field"]) and np.array_equal(a["rf"], b["rf"])):
+                report(c, dict(max_field_diff=float(np.abs(a["field"] - b["field"]).max()), max_recovery_diff=float(np.abs(a["rf"] - b["rf"]).max()),
+                               serial_final_recovery=float(a["rf"][-1]), concurrent_final_recovery=float(b["rf"][-1])))
+    return n
+
+
 def resid_tol(case, impl, base=1e-9):
     """Tolerance for the per-step residual max|A x - b| / max(floor, max|b|) reported by the float model.
     base = rounding level for well-scaled steps; a backward-stable solve leaves a residual of a few eps * |A| |x|, which
